@@ -1,5 +1,7 @@
 # -*- coding: utf-8 -*-
 """C02 - child cells exactly tile their parent."""
+import os
+
 from .. import common as C
 from .. import framework as F
 from .. import partsession as PS
@@ -11,9 +13,46 @@ def sig(tr, clause, line):
     return {"kindclass": tr["P"]["kind"], "algo": tr["P"].get("algo", "partition")}
 
 
+def apalache(chk, D, K, init, inv):
+    """one symbolic obligation (all integer boxes / cuts / points): True = no counterexample"""
+    import os, subprocess, time
+    cfg = os.path.join(chk.wd, "apa_%d_%d.cfg" % (D, K))
+    with open(cfg, "w") as f:
+        f.write("CONSTANTS\n D = %d\n K = %d\nINIT %s\nNEXT Next\nINVARIANT %s\n" % (D, K, init, inv))
+    cmd = ["apalache-mc", "check", "--config=" + cfg, "--init=" + init, "--inv=" + inv, "--length=0", "--out-dir=" + os.path.join(chk.wd, "apa"), "APA_Tiling.tla"]
+    t = time.time()
+    p = subprocess.run(cmd, cwd=os.path.join(C.SPEC, "apalache"), stdout=subprocess.PIPE, stderr=subprocess.STDOUT, text=True, timeout=900)
+    if "The outcome is: NoError" in p.stdout:
+        return True, time.time() - t, " ".join(cmd)
+    if "The outcome is: Error" in p.stdout and "invariant" in p.stdout:
+        return False, time.time() - t, " ".join(cmd)
+    raise C.Machinery("apalache failed: " + p.stdout[-1500:])
+
+
+def symbolic(chk, tier):
+    slabs = [(1, 2), (2, 3)] if tier == "quick" else [(1, 2), (2, 2), (3, 2), (1, 3), (2, 3), (3, 3), (2, 4), (3, 5)]
+    orths = [2] if tier == "quick" else [1, 2, 3]
+    done = []
+    for (D, K) in slabs:
+        ok, dt, cmd = apalache(chk, D, K, "InitSlab", "InvSlab")
+        done.append({"obligation": "slab D=%d K=%d" % (D, K), "discharged": ok, "s": round(dt, 1)})
+        if not ok:
+            chk.violations.append(({"source": "apalache", "obligation": "slab D=%d K=%d" % (D, K)}, os.path.join(chk.wd, "apa")))
+    for D in orths:
+        ok, dt, cmd = apalache(chk, D, 2, "InitOrth", "InvOrth")
+        done.append({"obligation": "orthants D=%d" % D, "discharged": ok, "s": round(dt, 1)})
+        if not ok:
+            chk.violations.append(({"source": "apalache", "obligation": "orthants D=%d" % D}, os.path.join(chk.wd, "apa")))
+    ok, dt, cmd = apalache(chk, 2, 3, "InitSlabBroken", "InvSlab")
+    if ok:
+        raise C.Machinery("negative control (last cut not pinned to the parent's bound) was not refuted by Apalache")
+    chk.notes["symbolic_obligations_apalache"] = {"obligations": done, "negative_control_refuted": True, "cmd": cmd}
+
+
 def run(tier):
     chk = F.Check("C02", tier)
     PC.model_runs(chk, "C02", tier)
+    symbolic(chk, tier)
     rp = PC.behaviours(chk, tier, 40 if tier == "quick" else 400)
     trs = S.pmap(PS.run_part, rp)
     chk.validate("Trace_Session.tla", "Trace_Session.cfg", trs, "replay", sigfn=sig, nontrivial=lambda t: F.count_mk(t) >= 2)
